@@ -2,7 +2,7 @@
 
 use crate::real::{self, moves_str, mv, mv_back, observe, partition_ok, pos, real_moves, snapshot};
 use refmodel::report::Collector;
-use crate::workload::{self, Crafted, Theme, THEMES};
+use refmodel::workload::{self, Crafted, Theme, THEMES};
 use chess_movegen::{Board, ChessMove, GameState};
 use refmodel::json::{obj, J};
 use refmodel::rng::{fnv, mix3, Rng};
